@@ -28,8 +28,8 @@ from .. import exact, stubs, tlc
 LEVEL = "model_checking"
 MANIFEST = dict(
     category="model_checking",
-    text="Losses.tla transcribes the documented target and regression of every critic loss (DQN, Nature-DQN, DDQN, PER-DDQN, DDPG, TD3, TD3+LAP, SAC, TD7 critic update, MR.Q) and of the two representation losses (SALE embedding loss, MR.Q unrolled encoder loss) on exact rationals; TLC proves on the model, for every batch of the lattice, that terminated rows carry no bootstrap, that steps after a termination are ignored, permutation invariance, that the loss is a mean of per-sample terms and that only online parameters are reached by gradients, and refutes four named deviations. Every TLC-generated vector (exhaustive small lattice + seeded random walks over the full lattice, batch sizes 1-4) is realised with table-lookup stub networks and replayed into the REAL functions; loss, auxiliary outputs and jax gradients w.r.t. every parameter group and the bootstrap inputs are compared with TLC's numbers exactly (4 ulp only where a mean over 3 rows is not dyadic). Function-level properties over all inputs cannot be exhausted, so model checking of the documented arithmetic plus exact replay is the right level.",
-    note="bounded lattices (dyadic values, batch size <= 4, 2-3 discrete actions, horizon <= 3); network forward passes are inputs (stubs); two-hot reward cross-entropy only for uniform logits (value = coefficient * ln #bins, 16 ulp); off-lattice floats only relationally (bitwise irrelevance / permutation); trusted: harness/stubs.py realisation, Exact.tla, TLC",
+    text="Losses.tla transcribes the documented target and regression of every critic loss (DQN, Nature-DQN, DDQN, PER-DDQN, DDPG, TD3, TD3+LAP, SAC, TD7 critic update, MR.Q) and of the two representation losses (SALE embedding loss, MR.Q unrolled encoder loss) on exact rationals; TLC proves on the model, for every batch of the lattice, that terminated rows carry no bootstrap, that steps after a termination are ignored, permutation invariance, that the loss is a mean of per-sample terms and that only online parameters are reached by gradients, and refutes four named deviations. Every TLC-generated vector (exhaustive small lattice + seeded random walks over the full lattice, batch sizes 1-4) is realised with table-lookup stub networks and replayed into the REAL functions; loss, auxiliary outputs and jax gradients w.r.t. every parameter group and the bootstrap inputs are compared with TLC's numbers exactly (==) for batch sizes 1, 2, 4; for batch size 3 (mean over 3 is not dyadic) within a counted rounding bound k * 2^-24 * sum |terms| taken over the terms that are added, never relative to the result. Function-level properties over all inputs cannot be exhausted, so model checking of the documented arithmetic plus exact replay is the right level.",
+    note="bounded lattices (dyadic values, batch size <= 4, 2-3 discrete actions, horizon <= 3); network forward passes are inputs (stubs); two-hot reward cross-entropy only for uniform logits (value = coefficient * ln #bins within 24 counted roundings of its non-negative terms); off-lattice floats only relationally (bitwise irrelevance / permutation); trusted: harness/stubs.py realisation, Exact.tla, TLC",
     technique="TLA+ spec + TLC (exhaustive invariants on the model, deviation canaries, vector generation); replay of TLC-generated vectors into the real loss functions with stub nnx modules, exact value and gradient comparison",
 )
 
@@ -78,29 +78,78 @@ def avg_l1(v):
     return v / np.mean(np.abs(v), axis=-1, keepdims=True)
 
 
-def ulps_for(n):
-    # mean over 3 rows / division by 3 is not dyadic: <= 2 roundings per mean, two critics, one add
-    return 0 if n in (1, 2, 4) else 4
+# ---- non-dyadic batch sizes (mean over 3 rows): COUNTED rounding bounds, never "ulps of the result".
+# One float32 rounding perturbs its result by at most U = 2^-24 relative to the magnitude of that result; a quantity computed
+# by k roundings from terms t_1..t_m is therefore within  k * U * sum |t_j|  of the exact value (first order).  The sums |t_j|
+# are taken over the TERMS that are added (cancellation-safe), not over the result.  Dyadic batch sizes (1, 2, 4): tolerance 0,
+# i.e. exact ==.
+U = 2.0 ** -24
+TWO = ("td3", "lap", "sac", "td7", "mrq")
+HUBER = ("lap", "td7", "mrq")
+K_MEAN = 2  # 1/n (or the division by n) and the product with the exact sum of exactly representable terms
+K_GRAD_MSE = 4  # cotangent 1/n, (importance weight), product with 2*(q - y), float32 rounding of the expected value
+# Huber backward pass (rl_blox huber_loss and optax.huber_loss have the same structure): ct = g0*delta + (g0*min(|e|,delta) - g0*delta)
+# with g0 = 1/n: roundings of g0, g0*min, g0*delta, the subtraction, the addition, + float32 rounding of the expected value;
+# the added terms have magnitudes g0*delta, g0*min(|e|,delta) <= g0*|e|, g0*delta  ->  sum |terms| <= (2*delta + |e|) / n
+K_GRAD_HUBER = 6
 
 
-def close(v, x, ulps):
-    """float (array) v equals rational x exactly or within `ulps` float32 ulp."""
-    return exact.eq(float(v), x, ulps=ulps)
+def dyadic_n(n):
+    return n in (1, 2, 4)
+
+
+def close_abs(v, x, tol=0.0):
+    """float v equals rational x ([num, den]) exactly (tol == 0) or within the absolute, counted bound tol."""
+    d = abs(Fraction(float(v)) - fq(x))
+    return d == 0 if tol == 0 else d <= Fraction(float(tol))
+
+
+def arr_close_abs(got, exp, tol):
+    """elementwise |got - exp| <= tol (tol == 0 -> ==); returns boolean array"""
+    got = np.asarray(got, dtype=np.float64)
+    exp = np.asarray(exp, dtype=np.float64)
+    tol = np.broadcast_to(np.asarray(tol, dtype=np.float64), exp.shape)
+    return np.where(tol == 0, got == exp, np.abs(got - exp) <= tol)
+
+
+def grad_tol(kind, n, g, e=None, delta=None):
+    """Absolute tolerance for one expected gradient cell g = dReg/n (0 for dyadic batch sizes and for exact zeros of the MSE kinds)."""
+    if dyadic_n(n):
+        return 0.0
+    if kind in HUBER:
+        if e == 0:
+            return 0.0  # g0*delta + (g0*0 - g0*delta) is exactly 0
+        return K_GRAD_HUBER * U * (2.0 * delta + abs(e)) / n
+    return K_GRAD_MSE * U * abs(g)
+
+
+def value_tols(case, alt):
+    """Counted bounds for the scalar outputs of the critic / SALE losses at non-dyadic batch sizes."""
+    n, k = case.n, case.kind
+    if dyadic_n(n):
+        return {"loss": 0.0, "qmean": 0.0, "mtd": 0.0}
+    if k == "sale":  # one mean over n*2 exactly representable non-negative terms
+        return {"loss": K_MEAN * U * fl(alt["loss"]), "qmean": 0.0, "mtd": 0.0}
+    c = 2 if k in TWO else 1
+    rows = case.vec["rows"]
+    if k in DISC:
+        qs = [abs(fl(r["x"]["q"])) for r in rows]
+    elif c == 2:
+        qs = [abs(min(fl(r["x"]["q1"]), fl(r["x"]["q2"]))) for r in rows]
+    else:
+        qs = [abs(fl(r["x"]["q1"])) for r in rows]
+    return {
+        # per critic a mean of non-negative exactly representable terms (sum |terms| / n = that mean), one addition of the two means
+        "loss": (K_MEAN * c + (c - 1)) * U * fl(alt["loss"]),
+        "qmean": K_MEAN * U * sum(qs) / n,  # signed terms: bound relative to sum |q_i| / n, not to the (possibly cancelling) mean
+        "mtd": K_MEAN * U * fl(alt["mtd"]),
+    }
 
 
 def same_bits(a, b):
     a = np.asarray(a)
     b = np.asarray(b)
     return a.shape == b.shape and a.dtype == b.dtype and a.tobytes() == b.tobytes()
-
-
-def within_ulps(a, b, k):
-    a = np.asarray(a, dtype=np.float32)
-    b = np.asarray(b, dtype=np.float32)
-    if a.shape != b.shape:
-        return False
-    tol = k * np.spacing(np.maximum(np.abs(a), np.abs(b)).astype(np.float32))
-    return bool(np.all(np.abs(a - b) <= tol))
 
 
 @dataclass
@@ -114,6 +163,7 @@ class Case:
     groups: dict = field(default_factory=dict)  # spec group name -> [refs]
     boot: list = field(default_factory=list)  # per row: [(ref, index tuple)] cells realising the row's bootstrap part
     aux: dict = field(default_factory=dict)  # free: realisation details
+    tol_grad: dict = field(default_factory=dict)  # ref -> np.ndarray of absolute tolerances (missing / 0 = exact ==)
     variant: str = "lattice"
     base: int = -1  # index of the case this variant is compared with
     perm: list | None = None
@@ -148,6 +198,7 @@ def realise(vec, rng) -> Case:
         Wt = fill(rng, (S, na))
         act = np.zeros(n, dtype=np.int32)
         gW = np.zeros((S, na), dtype=np.float32)
+        tW = np.zeros((S, na), dtype=np.float64)
         for i, rw in enumerate(rows):
             a = rw["x"]["a"] - 1
             act[i] = a
@@ -157,6 +208,7 @@ def realise(vec, rng) -> Case:
             if k != "dqn":
                 Wt[n + i] = vecf(rw["b"]["Qt"])
             gW[i, a] = fl(seq(alt0["g1"])[i])
+            tW[i, a] = grad_tol(k, n, gW[i, a])
             c.boot.append([((0, "kernel"), (n + i,)), ((1, "kernel"), (n + i,))] if k != "dqn" else [((0, "kernel"), (n + i,))])
         c.leaves = [{"kernel": W}] + ([{"kernel": Wt}] if k != "dqn" else [])
         c.arrays = dict(
@@ -166,6 +218,7 @@ def realise(vec, rng) -> Case:
         if k == "per":
             c.arrays["w"] = np.array([fl(rw["x"]["w"]) for rw in rows], dtype=np.float32)
         c.exp_grad[(0, "kernel")] = gW
+        c.tol_grad[(0, "kernel")] = tW
         c.groups = {"online@obs": [((0, "kernel"), 0, n)], "online@next": [((0, "kernel"), n, S)], "next_obs": [("arr", "nobs")]}
         if k != "dqn":
             c.exp_grad[(1, "kernel")] = np.zeros_like(Wt)
@@ -194,6 +247,13 @@ def realise(vec, rng) -> Case:
             out[S, 0] = NAN  # action weight: sum_i g_i a_i, checked separately
             return out
 
+        def tcrit(j):
+            out = np.zeros((S + 1, 1), dtype=np.float64)
+            for i, rw in enumerate(rows):
+                e = fl(rw["x"]["q%d" % (j + 1)]) - fl(seq(alt0["y"])[i])
+                out[i, 0] = grad_tol(k, n, g[j][i], e, fl(par["delta"]))
+            return out
+
         c.arrays = dict(
             obs=obs, act=a, r=np.array([fl(rw["x"]["r"]) for rw in rows], dtype=np.float32), nobs=nobs,
             term=np.array([rw["x"]["term"] for rw in rows], dtype=np.int32), gamma=np.float32(fl(par["gamma"])),
@@ -204,6 +264,7 @@ def realise(vec, rng) -> Case:
             P[n:] = a2
             c.leaves = [{"kernel": qon[0]}, {"kernel": qtg[0]}, {"kernel": P}]
             c.exp_grad = {(0, "kernel"): gcrit(g[0]), (1, "kernel"): np.zeros_like(qtg[0]), (2, "kernel"): np.zeros_like(P)}
+            c.tol_grad = {(0, "kernel"): tcrit(0)}
             c.groups = {"online@obs": [((0, "kernel"), 0, n)], "online@next": [((0, "kernel"), n, S)], "target@next": [(1, "kernel")], "target_policy": [(2, "kernel")], "next_obs": [("arr", "nobs")]}
             c.boot = [[((1, "kernel"), (n + i,)), ((2, "kernel"), (n + i,))] for i in range(n)]
             c.aux["vref"] = [(0, "kernel")]
@@ -213,6 +274,7 @@ def realise(vec, rng) -> Case:
                 (0, "q1.kernel"): gcrit(g[0]), (0, "q2.kernel"): gcrit(g[1]),
                 (1, "q1.kernel"): np.zeros_like(qtg[0]), (1, "q2.kernel"): np.zeros_like(qtg[1]),
             }
+            c.tol_grad = {(0, "q1.kernel"): tcrit(0), (0, "q2.kernel"): tcrit(1)}
             c.groups = {"online@obs": [((0, "q1.kernel"), 0, n), ((0, "q2.kernel"), 0, n)], "online@next": [((0, "q1.kernel"), n, S), ((0, "q2.kernel"), n, S)],
                         "target@next": [(1, "q1.kernel"), (1, "q2.kernel")], "next_obs": [("arr", "nobs")]}
             c.boot = [[((1, "q1.kernel"), (n + i,)), ((1, "q2.kernel"), (n + i,))] for i in range(n)]
@@ -273,7 +335,8 @@ def realise(vec, rng) -> Case:
             obs=obs, act=a, nobs=nobs, nact=a2, r=np.array([fl(rw["x"]["r"]) for rw in rows], dtype=np.float32),
             term=np.array([rw["x"]["term"] for rw in rows], dtype=np.int32),
         )
-        c.aux.update(zs=zs, zsa=zsa, g=[[fl(v) for v in seq(alt0["g%d" % (j + 1)])] for j in range(2)])
+        c.aux.update(zs=zs, zsa=zsa, g=[[fl(v) for v in seq(alt0["g%d" % (j + 1)])] for j in range(2)],
+                     e=[[fl(rw["x"]["q%d" % (j + 1)]) - fl(seq(alt0["y"])[i]) for i, rw in enumerate(rows)] for j in range(2)])
         c.groups = {"online@obs": [(2, "q1.k"), (2, "q2.k")], "target@next": [(3, "*")], "fixed_embedding_target": [(1, "*")],
                     "fixed_embedding": [(0, "*")], "next_action": [("arr", "nact")], "next_obs": [("arr", "nobs")]}
         c.boot = [[((3, "q1.k"), (n + i,)), ((3, "q2.k"), (n + i,)), ((1, "_state_embedding.kernel"), (n + i,)), (("arr", "nact"), (i,))] for i in range(n)]
@@ -308,6 +371,13 @@ def realise(vec, rng) -> Case:
             out[2 : 2 + n, 0] = gj
             return out
 
+        def tcrit(j):
+            out = np.zeros((2 + A, 1), dtype=np.float64)
+            for i, rw in enumerate(rows):
+                e = fl(rw["x"]["q%d" % (j + 1)]) - fl(seq(alt0["y"])[i])
+                out[2 + i, 0] = grad_tol(k, n, g[j][i], e, 1.0)
+            return out
+
         c.leaves = [{"q1.kernel": on[0], "q2.kernel": on[1]}, {"q1.kernel": tg[0], "q2.kernel": tg[1]}, encs[0], encs[1]]
         c.arrays = dict(
             obs=obs, act=act, r=np.array([vecf(rw["x"]["rs"]) for rw in rows], dtype=np.float32), nobs=nobs,
@@ -316,6 +386,7 @@ def realise(vec, rng) -> Case:
         )
         c.exp_grad = {(0, "q1.kernel"): gcrit(g[0]), (0, "q2.kernel"): gcrit(g[1]), (1, "q1.kernel"): np.zeros_like(tg[0]), (1, "q2.kernel"): np.zeros_like(tg[1]),
                       ("arr", "nobs"): np.zeros_like(nobs), ("arr", "nact"): np.zeros_like(nact)}
+        c.tol_grad = {(0, "q1.kernel"): tcrit(0), (0, "q2.kernel"): tcrit(1)}
         for mi in (2, 3):
             for kk, v in encs[mi - 2].items():
                 c.exp_grad[(mi, kk)] = np.zeros_like(v)
@@ -329,16 +400,19 @@ def realise(vec, rng) -> Case:
         E = ZRAW[rng.integers(0, len(ZRAW), size=S)].copy()
         G = fill(rng, (2 + n, 2))
         gG = np.full((2 + n, 2), NAN, dtype=np.float32)
+        tG = np.zeros((2 + n, 2), dtype=np.float64)
         zs = avg_l1(E[:n])
         for i, rw in enumerate(rows):
             E[n + i] = vecf(rw["b"]["en"])
             G[2 + i] = np.array(vecf(rw["x"]["zsa"]), dtype=np.float32) - zs[i] @ G[:2]
             gG[2 + i] = vecf(seq(alt0["g"])[i])
+            tG[2 + i] = [grad_tol(k, n, v) for v in gG[2 + i]]
         gE = np.full((S, 2), NAN, dtype=np.float32)
         gE[n:] = 0.0
         c.leaves = [{"_state_embedding.kernel": E, "state_action_embedding.kernel": G}]
         c.arrays = dict(obs=obs, act=act, nobs=nobs)
         c.exp_grad = {(0, "_state_embedding.kernel"): gE, (0, "state_action_embedding.kernel"): gG, ("arr", "nobs"): np.zeros_like(nobs)}
+        c.tol_grad = {(0, "state_action_embedding.kernel"): tG}
         c.groups = {"embedding@obs": [((0, "_state_embedding.kernel"), 0, n)], "sa_embedding": [(0, "state_action_embedding.kernel")],
                     "embedding@next": [((0, "_state_embedding.kernel"), n, S)], "next_obs": [("arr", "nobs")]}
     elif k == "enc":
@@ -357,6 +431,8 @@ def realise(vec, rng) -> Case:
         M[:2, :3] = fill(rng, (2, 3))
         gM = np.full((2 + A, 3 + nb), NAN, dtype=np.float32)
         gMb = np.full((2 + A, 3 + nb), NAN, dtype=np.float32)  # done column under the spec's named broadcast deviation
+        tM = np.zeros((2 + A, 3 + nb), dtype=np.float64)
+        tMb = np.zeros(2 + A, dtype=np.float64)
         obs3 = np.zeros((n, h, S), dtype=np.float32)
         nobs3 = np.zeros((n, h, S), dtype=np.float32)
         act3 = np.zeros((n, h, A), dtype=np.float32)
@@ -379,8 +455,12 @@ def realise(vec, rng) -> Case:
                 act3[i, t, j] = 1.0
                 gM[2 + j, 0] = fl(seq(seq(alt0["gd"])[i])[t])
                 gMb[2 + j, 0] = fl(seq(seq(alt0["gd_bc"])[i])[t])
+                # cotangent weight/n (1 rounding), product with 2*(prediction - target), rounding of the expected value
+                tM[2 + j, 0] = grad_tol(k, n, gM[2 + j, 0])
+                tMb[2 + j] = grad_tol(k, n, gMb[2 + j, 0])
                 if t == h - 1:
                     gM[2 + j, 1:3] = vecf(seq(alt0["gz"])[i])
+                    tM[2 + j, 1:3] = [grad_tol(k, n, v) for v in gM[2 + j, 1:3]]
                 z = pz[t]
                 cells.append([((0, "model.kernel"), (2 + j, slice(0, 3))), ((1, "zs.kernel"), (sn,)), (("arr", "r"), (i, t))])
             c.boot.append(cells)
@@ -399,7 +479,8 @@ def realise(vec, rng) -> Case:
             c.exp_grad[(1, kk)] = np.zeros_like(v)
         c.groups = {"encoder@obs": [((0, "zs.kernel"), 0, n)], "encoder@next": [((0, "zs.kernel"), n, S)], "encoder_model": [(0, "model.kernel")],
                     "encoder_target": [(1, kk) for kk in enct], "next_obs": [("arr", "nobs")]}
-        c.aux.update(h=h, normtgt=normtgt, gd_bc=gMb[:, 0])
+        c.tol_grad = {(0, "model.kernel"): tM}
+        c.aux.update(h=h, normtgt=normtgt, gd_bc=gMb[:, 0], gd_bc_tol=tMb)
     else:  # pragma: no cover
         raise tlc.MachineryError(f"unknown kind {k}")
     missing = [gname for gname in list(vec["zero"]) + list(vec["support"]) if gname not in c.groups]
@@ -702,35 +783,36 @@ def run_td7_group(cases):
 
 
 # ----------------------------------------------------------------- comparison with TLC's numbers
-def _arr_close(v, xs, ulps):
+def _arr_exact(v, xs):
     v = np.asarray(v).reshape(-1)
     xs = list(xs)
-    return len(v) == len(xs) and all(close(a, b, ulps) for a, b in zip(v, xs))
+    return len(v) == len(xs) and all(close_abs(a, b) for a, b in zip(v, xs))
 
 
-def compare_alt(case: Case, out, grads, alt, ulps):
+def compare_alt(case: Case, out, grads, alt):
     """Returns None if every output equals this admissible alternative, else (field, text)."""
     k = case.kind
     if k == "enc":
         return None  # handled separately
-    if not close(out["loss"], alt["loss"], ulps):
-        return ("loss", f"loss {float(out['loss'])!r} != {fq(alt['loss'])}")
-    if k == "sale":
-        pass
-    else:
-        if "qmean" in out and not close(out["qmean"], alt["qmean"], ulps):
-            return ("q_mean", f"q_mean {float(out['qmean'])!r} != {fq(alt['qmean'])}")
-        if "mtd" in out and not close(out["mtd"], alt["mtd"], ulps):
-            return ("td_error_mean", f"mean |TD error| {float(out['mtd'])!r} != {fq(alt['mtd'])}")
-        if "ptd" in out and not _arr_close(out["ptd"], seq(alt["ptd"]), 0):
+    tol = value_tols(case, alt)
+    if not close_abs(out["loss"], alt["loss"], tol["loss"]):
+        return ("loss", f"loss {float(out['loss'])!r} != {fq(alt['loss'])} (counted bound {tol['loss']:.3g})")
+    if k != "sale":
+        if "qmean" in out and not close_abs(out["qmean"], alt["qmean"], tol["qmean"]):
+            return ("q_mean", f"q_mean {float(out['qmean'])!r} != {fq(alt['qmean'])} (counted bound {tol['qmean']:.3g})")
+        if "mtd" in out and not close_abs(out["mtd"], alt["mtd"], tol["mtd"]):
+            return ("td_error_mean", f"mean |TD error| {float(out['mtd'])!r} != {fq(alt['mtd'])} (counted bound {tol['mtd']:.3g})")
+        # per-sample outputs involve no division by the batch size: exact for every batch size
+        if "ptd" in out and not _arr_exact(out["ptd"], seq(alt["ptd"])):
             return ("max_abs_td_error", f"per-sample |TD error| {np.asarray(out['ptd']).tolist()} != {[str(fq(v)) for v in seq(alt['ptd'])]}")
-        if "y" in out and not _arr_close(out["y"], seq(alt["y"]), 0):
+        if "y" in out and not _arr_exact(out["y"], seq(alt["y"])):
             return ("q_target", f"targets {np.asarray(out['y']).tolist()} != {[str(fq(v)) for v in seq(alt['y'])]}")
     return None
 
 
-def compare_grads(case: Case, grads, ulps):
-    """Exact comparison of gradients with the expectation built from TLC's per-row gradients and zero groups."""
+def compare_grads(case: Case, grads):
+    """Comparison of gradients with the expectation built from TLC's per-row gradients and zero groups: exact == for dyadic
+    batch sizes and for every expected zero; counted absolute bound (case.tol_grad) for the non-dyadic cells."""
     bad = []
     for ref, exp in case.exp_grad.items():
         got = grads.get(ref)
@@ -741,19 +823,13 @@ def compare_grads(case: Case, grads, ulps):
         if got.shape != exp.shape:
             bad.append((ref, None, f"gradient shape {got.shape} != {exp.shape}"))
             continue
-        if ulps == 0:
-            ok = np.array_equal(got[chk], exp[chk])
-        else:
-            z = exp[chk] == 0
-            ok = np.array_equal(got[chk][z], exp[chk][z]) and within_ulps(got[chk][~z], exp[chk][~z], ulps)
-        if not ok:
-            idx = np.argwhere(chk & (got != np.where(chk, exp, got)))
-            first = tuple(int(v) for v in idx[0]) if len(idx) else None
-            if first is None:
-                bad.append((ref, None, f"d loss/d {ref} = {got.tolist()}, spec {exp.tolist()}"))
-            else:
-                bad.append((ref, first, f"d loss/d {ref}{list(first)} = {float(got[first])!r}, spec {float(exp[first])!r}"))
-    if "gv" in case.aux and ulps == 0:  # action weight of the online critics: sum_i g_i a_i (exact on dyadic values)
+        tol = case.tol_grad.get(ref)
+        tol = np.zeros(exp.shape) if tol is None else np.asarray(tol, dtype=np.float64)
+        good = arr_close_abs(got, np.where(chk, exp, 0.0), tol) | ~chk
+        if not bool(np.all(good)):
+            first = tuple(int(v) for v in np.argwhere(~good)[0])
+            bad.append((ref, first, f"d loss/d {ref}{list(first)} = {float(got[first])!r}, spec {float(exp[first])!r}" + (f" (counted bound {float(tol[first]):.3g})" if tol[first] else "")))
+    if "gv" in case.aux and dyadic_n(case.n):  # action weight of the online critics: sum_i g_i a_i (exact on dyadic values)
         for j, ref in enumerate(case.aux["vref"]):
             got = grads[ref][-1, 0]
             if float(got) != float(case.aux["gv"][j]):
@@ -777,14 +853,13 @@ def group_of(case: Case, ref, idx=None):
 def check_lattice(case: Case, out, grads, rep, stats):
     fname = FNAME[case.kind]
     vec = case.vec
-    ulps = ulps_for(case.n)
     rinfo = {"vec": vec, "fill_seed": list(case.fill_seed), "variant": case.variant}
     suffix = ""  # one key per output whatever the batch size (the text names it)
     if case.kind == "enc":
         return check_enc(case, out, grads, rep, stats, rinfo)
     fails = []
     for alt in vec["alts"]:
-        f = compare_alt(case, out, grads, alt, ulps)
+        f = compare_alt(case, out, grads, alt)
         if f is None:
             break
         fails.append(f)
@@ -797,15 +872,15 @@ def check_lattice(case: Case, out, grads, rep, stats):
         return True  # gradients depend on which admissible argmax was taken; values were matched
     ok = True
     if case.kind == "td7":
-        ok = check_td7_update(case, grads, rep, rinfo, ulps)
+        ok = check_td7_update(case, grads, rep, rinfo)
     else:
-        for ref, idx, text in compare_grads(case, grads, ulps):
+        for ref, idx, text in compare_grads(case, grads):
             ok = False
             rep.violation(f"{fname}:grad:{group_of(case, ref, idx)}{suffix}", f"{fname} (batch size {case.n}): {text}; par={_short(vec['par'], case.kind)} rows={json.dumps(vec['rows'])[:600]}", rinfo)
     return ok
 
 
-def check_td7_update(case: Case, grads, rep, rinfo, ulps):
+def check_td7_update(case: Case, grads, rep, rinfo):
     """grads = old - new parameters after the SGD(1) step: the critic moves by TLC's per-row gradient, nothing else moves."""
     n = case.n
     ok = True
@@ -820,13 +895,19 @@ def check_td7_update(case: Case, grads, rep, rinfo, ulps):
         exp[:n] = np.array(case.aux["g"][j], dtype=np.float32)
         chk = np.ones_like(d, dtype=bool)
         chk[-1] = False  # action weight
-        if ulps == 0:
+        if dyadic_n(n):
             good = np.array_equal(d[chk], exp[chk])
         else:
-            # non-dyadic gradient (batch of 3): new = fl(old - g) rounds at the magnitude of the parameter, d = old - new inherits that
-            old = np.abs(case.leaves[2][q + ".k"][:, 0][chk]) + np.abs(exp[chk])
-            tol = ulps * np.spacing(np.abs(exp[chk]).astype(np.float32)) + 2 * np.spacing(old.astype(np.float32))
-            good = bool(np.all(np.abs(d[chk] - exp[chk]) <= tol)) and np.array_equal(d[chk][exp[chk] == 0], exp[chk][exp[chk] == 0])
+            # counted: the Huber backward pass (K_GRAD_HUBER roundings on terms of total magnitude (2*delta + |e|)/n), then
+            # new = fl(old - 1.0*g) and d = old - new: two more roundings at the magnitude |old| + |g|.  Expected zeros stay exact.
+            delta = fl(case.vec["par"]["delta"])
+            tol = np.zeros(d.shape, dtype=np.float64)
+            oldv = np.abs(case.leaves[2][q + ".k"][:, 0]).astype(np.float64)
+            for i in range(n):
+                tol[i] = grad_tol("td7", n, exp[i], case.aux["e"][j][i], delta)
+                if tol[i]:
+                    tol[i] += 2 * U * (oldv[i] + abs(float(exp[i])))
+            good = bool(np.all(arr_close_abs(d, exp, tol)[chk]))
         if not good:
             ok = False
             rep.violation("td7_update_critic:grad:online@obs", f"td7_update_critic moved {q} by {d[chk].tolist()} with SGD(lr=1); spec gradient {exp[chk].tolist()}; par={_short(case.vec['par'], 'td7')}", rinfo)
@@ -838,40 +919,51 @@ def check_enc(case: Case, out, grads, rep, stats, rinfo):
     alt = case.vec["alts"][0]
     par = case.vec["par"]
     n = case.n
-    ulps = ulps_for(n)
+    h = case.aux["h"]
+    # counted: per unroll step one mean (K_MEAN roundings), h - 1 additions over the horizon; all terms are non-negative, so the
+    # sum of |terms| is the component itself; the total adds <= 2 more roundings (weights 0/1/2 multiply exactly)
+    kc = 0 if dyadic_n(n) else K_MEAN + (h - 1)
+    tol_c = lambda x: kc * U * abs(fl(x))
     ok = True
     ctx = f"(batch size {n}, horizon {case.aux['h']}, weights dyn/rew/done={fq(par['dw'])}/{fq(par['rw'])}/{fq(par['tw'])}, environment_terminates={par['envterm']}, normalize_targets={par['normtgt']}) terminated={case.arrays['term'].tolist()}"
-    if not close(out["dyn"], alt["dyn"], ulps):
+    if not close_abs(out["dyn"], alt["dyn"], tol_c(alt["dyn"])):
         ok = False
         rep.violation(f"{fname}:dynamics_loss", f"dynamics loss {float(out['dyn'])!r} != {fq(alt['dyn'])} {ctx}", rinfo)
     done_bc = False
-    if not close(out["done"], alt["done"], ulps):
+    if not close_abs(out["done"], alt["done"], tol_c(alt["done"])):
         ok = False
-        done_bc = close(out["done"], alt["done_bc"], max(ulps, 2))
+        # mean(se)*mean(mask): two means and a product per step
+        done_bc = close_abs(out["done"], alt["done_bc"], (2 * K_MEAN + 1 + (h - 1)) * U * abs(fl(alt["done_bc"])))
         key = f"{fname}:done_loss_broadcast" if done_bc else f"{fname}:done_loss"
         rep.violation(key, f"done loss {float(out['done'])!r} != documented masked MSE {fq(alt['done'])}" + (f" but equals mean(se)*mean(mask) = {fq(alt['done_bc'])}: the (N,) predictions are broadcast against the (N,1) mask, rows after a termination are not ignored" if done_bc else "") + f" {ctx} pred_done={[vecf(r['x']['pd']) for r in case.vec['rows']]}", rinfo)
-    if not close(out["rmse"], alt["rmse"], ulps):
+    if not close_abs(out["rmse"], alt["rmse"], tol_c(alt["rmse"])):
         ok = False
-        bc = close(out["rmse"], alt["rmse_bc"], max(ulps, 2))
+        bc = close_abs(out["rmse"], alt["rmse_bc"], (2 * K_MEAN + 1 + (h - 1)) * U * abs(fl(alt["rmse_bc"])))
         key = f"{fname}:reward_mse_broadcast" if bc else f"{fname}:reward_mse"
         rep.violation(key, f"reward-MSE metric {float(out['rmse'])!r} != documented masked MSE {fq(alt['rmse'])}" + (f" but equals mean(se)*mean(mask) = {fq(alt['rmse_bc'])}" if bc else "") + f" {ctx}", rinfo)
-    # reward cross-entropy with uniform logits: cr * ln(#bins); <= ~6 float32 operations per sample + mean + sum over the horizon
+    # reward cross-entropy with uniform logits: cr * ln(#bins), all terms non-negative.  Counted roundings (any batch size):
+    # libm log <= 2 ulp (4 U), log_softmax subtraction 1, two-hot weight: x - lower 1, division 1, 1 - w 1, two products 2,
+    # sum over the bins 3, mean K_MEAN, sum over the horizon <= 2, float32 rounding of the expected value 1  -> 18; K_REW = 24
+    K_REW = 24
     cr = fl(alt["cr"])
     lnk = math.log(len(BINS))
-    if not within_ulps(np.float32(out["rew"]), np.float32(cr * lnk), 16):
+    if abs(float(out["rew"]) - cr * lnk) > K_REW * U * cr * lnk:
         ok = False
         rep.violation(f"{fname}:reward_loss", f"reward loss {float(out['rew'])!r} != {fq(alt['cr'])} * ln {len(BINS)} = {cr * lnk!r} (uniform logits) {ctx}", rinfo)
     rw = fl(par["rw"])
     tot = float(out["loss"])
     exp_tot = fl(alt["exact"]) + rw * cr * lnk
-    tot_ok = close(tot, alt["exact"], ulps) if rw == 0 else within_ulps(np.float32(tot), np.float32(exp_tot), 16 + ulps)
+    tol_tot = (kc + (2 if kc else 0)) * U * fl(alt["exact"])
+    if rw != 0:  # reward term's own bound, two additions and the float rounding of the expected value at the magnitude of the total
+        tol_tot += K_REW * U * rw * cr * lnk + 3 * U * (fl(alt["exact"]) + rw * cr * lnk)
+    tot_ok = close_abs(tot, alt["exact"], tol_tot) if rw == 0 else abs(tot - exp_tot) <= tol_tot
     if not tot_ok:
         ok = False
         exp_bc = fl(alt["exact_bc"]) + rw * cr * lnk
-        bc = within_ulps(np.float32(tot), np.float32(exp_bc), 16 + ulps) and done_bc
+        bc = abs(tot - exp_bc) <= tol_tot + (2 * K_MEAN + 3) * U * abs(fl(alt["exact_bc"])) and done_bc
         key = f"{fname}:done_loss_broadcast" if bc else f"{fname}:total_loss"
         rep.violation(key, f"total loss {tot!r} != {exp_tot!r} {ctx}", rinfo)
-    for ref, idx, text in compare_grads(case, grads, ulps):
+    for ref, idx, text in compare_grads(case, grads):
         ok = False
         g = group_of(case, ref, idx)
         key = f"{fname}:grad:{g}"
@@ -882,8 +974,8 @@ def check_enc(case: Case, out, grads, rep, stats, rinfo):
             chk[:, 0] = False
             gb = case.aux["gd_bc"]
             cb = ~np.isnan(gb)
-            others_ok = np.array_equal(got[chk], exp[chk]) if ulps == 0 else within_ulps(got[chk], exp[chk], ulps)
-            col_bc = np.array_equal(got[:, 0][cb], gb[cb]) if ulps == 0 else within_ulps(got[:, 0][cb], gb[cb], ulps)
+            others_ok = bool(np.all(arr_close_abs(got, np.where(chk, exp, 0.0), case.tol_grad[ref])[chk]))
+            col_bc = bool(np.all(arr_close_abs(got[:, 0], np.where(cb, gb, 0.0), case.aux["gd_bc_tol"])[cb]))
             if others_ok and col_bc:  # only the done column is off, and it is exactly the broadcast deviation's gradient
                 key = f"{fname}:done_loss_broadcast"
                 text += " = gradient of mean(se)*mean(mask): masked rows receive gradient, unmasked rows are scaled by mean(mask)"
@@ -897,6 +989,15 @@ def _short(par, kind):
 
 
 PER_SAMPLE = ("ptd", "y")
+
+
+def perm_close(a, b, n):
+    """Scalars that are sums of NON-NEGATIVE per-sample terms (losses, mean |TD|, loss components): reordering a sum of n
+    terms changes it by at most (n - 1) roundings per reduction relative to the sum of |terms| = the value itself; two critics /
+    weighted components add <= 3 more.  Bound (n + 2) * U * value, applied to both evaluations."""
+    a = float(a)
+    b = float(b)
+    return abs(a - b) <= 2 * (n + 2) * U * max(abs(a), abs(b))
 # q_mean is a mean of SIGNED values: under cancellation the reordering error is (n-1) * eps * max|partial sum|, not relative to the
 # result; |q_i| <= 16 for lattice values (<= 3) plus 0.37-sigma noise on <= 4 addends, so 4 * spacing(16) bounds it for n <= 4
 QMEAN_ABS_TOL = 4 * float(np.spacing(np.float32(16.0)))
@@ -926,7 +1027,7 @@ def check_relational(case: Case, res, base_res, rep, stats):
                 if not same_bits(out[k], np.asarray(bout[k])[p]):
                     ok = False
                     rep.violation(f"{fname}:permutation:{k}", f"{fname}: per-sample output '{k}' is not permuted with the batch (perm {p}): {np.asarray(out[k]).tolist()} vs {np.asarray(bout[k])[p].tolist()}", rinfo)
-            elif not (within_ulps(out[k], bout[k], 4) or (k == "qmean" and abs(float(out[k]) - float(bout[k])) <= QMEAN_ABS_TOL)):
+            elif not (perm_close(out[k], bout[k], case.n) or (k == "qmean" and abs(float(out[k]) - float(bout[k])) <= QMEAN_ABS_TOL)):
                 ok = False
                 key = f"{fname}:permutation:{k}"
                 rep.violation(key, f"{fname}: output '{k}' changed from {float(bout[k])!r} to {float(out[k])!r} under the batch permutation {p}", rinfo)
@@ -1191,7 +1292,8 @@ def run(rep):
     rep.assumptions += [
         "network forward passes are inputs: stub modules (bias-free linear maps on one-hot inputs) realise the outputs chosen by TLC",
         "values are decided on dyadic lattices only; off-lattice floats only relationally (bitwise irrelevance of terminated rows' bootstrap inputs, permutation)",
-        "two-hot reward cross-entropy inside model_based_encoder_loss only for uniform logits (coefficient * ln #bins within 16 ulp)",
+        "two-hot reward cross-entropy inside model_based_encoder_loss only for uniform logits (coefficient * ln #bins within 24 counted roundings)",
+        "batch size 3: values and gradients within counted rounding bounds k * 2^-24 * sum |terms| (k = number of float32 roundings incl. 1/3 and the Huber backward pass); expected zeros and batch sizes 1, 2, 4 exact",
         "td7_update_critic's gradient is observed through an SGD(lr=1) optimiser step",
         "trusted: harness/stubs.py, realisation code in c03.py, Exact.tla, TLC",
     ]
